@@ -6,6 +6,7 @@ import J5V.Print.LayoutProofs
 import J5V.Print.Grammar
 import J5V.Print.ScalarProofs
 import J5V.Print.ReparseMain
+import J5V.Print.Cover
 /-!
 # C05 — generated .proto text re-parses to the descriptor it was printed from
 
@@ -559,7 +560,8 @@ def simpleEx : FileD :=
   ⟨Loc.none, "p.v1", [("a/b.proto", "public ")], [], [],
    [ .block "service" 0 Loc.none 0 "S" [] [ .rpc Loc.none 0 "Get" "M" "stream M.N" [] ],
      .block "message" 1 Loc.none 0 "M" []
-       [ fld "" "string" "a" 1, fld "repeated " "q.E" "b_c" 2,
+       [ fld "" "string" "a" 1, fld "repeated " "q.E" "b_c" 2, fld "" "map<string, .p.v1.M.N>" "m" 5,
+         .block "oneof" 0 Loc.none 0 "pick" [] [ fld "" "string" "x" 3, fld "" "M.N" "y" 4 ],
          .block "message" 1 Loc.none 0 "N" [] [],
          .block "enum" 2 Loc.none 0 "E" [] [val "E_UNSPECIFIED" 0, val "E_X" (-1)] ] ]⟩
 
@@ -570,51 +572,54 @@ theorem ident (s : String) (c : Char) (cs : List Char) (h : s.toList = c :: cs) 
 theorem kwOk_of (s : String) (h : decide (s ≠ "repeated" ∧ s ≠ "optional" ∧ s ≠ "option" ∧ s ≠ "message" ∧ s ≠ "enum" ∧ s ≠ "oneof") = true) :
     kwOk s := by unfold kwOk; exact of_decide_eq_true h
 
-theorem simpleEx_ok : SimpleFile "gen" simpleEx := by
-  refine ⟨by intro c hc; revert c; decide, ⟨rfl, rfl, rfl, rfl, rfl⟩, ?_, ?_, ?_, rfl, rfl, ?_⟩
-  · exact ⟨"p", ["v1"], ident "p" 'p' [] (by decide) (by decide) (by decide),
-      by intro r hr; simp at hr; subst hr; exact ident "v1" 'v' ['1'] (by decide) (by decide) (by decide), by decide⟩
-  · intro i hi
-    simp only [simpleEx, List.mem_singleton] at hi
-    subst hi
-    exact ⟨by intro c hc; revert c; decide, Or.inr (Or.inl rfl)⟩
-  · simp [simpleEx]
-  · have hM : IsIdent "M" := ident "M" 'M' [] (by decide) (by decide) (by decide)
-    have hN : IsIdent "N" := ident "N" 'N' [] (by decide) (by decide) (by decide)
-    have hE : IsIdent "E" := ident "E" 'E' [] (by decide) (by decide) (by decide)
-    have hfa : SimpleField ⟨.field, Loc.none, 0, "", "string", "a", 1, some (String.ofList (defaultJSONName "a".toList)), []⟩ :=
-      ⟨rfl, ⟨rfl, rfl, rfl, rfl, rfl⟩, rfl, Or.inl rfl, ident "a" 'a' [] (by decide) (by decide) (by decide), rfl,
-        false, "string", [], ident "string" 's' ['t','r','i','n','g'] (by decide) (by decide) (by decide),
-        by simp, by decide, by decide, fun _ _ => kwOk_of _ (by decide)⟩
-    have hfb : SimpleField ⟨.field, Loc.none, 0, "repeated ", "q.E", "b_c", 2, some (String.ofList (defaultJSONName "b_c".toList)), []⟩ :=
-      ⟨rfl, ⟨rfl, rfl, rfl, rfl, rfl⟩, rfl, Or.inr (Or.inl rfl), ident "b_c" 'b' ['_','c'] (by decide) (by decide) (by decide), rfl,
-        false, "q", ["E"], ident "q" 'q' [] (by decide) (by decide) (by decide),
-        by intro r hr; simp at hr; subst hr; exact hE,
-        by decide, by decide, fun h => by simp at h⟩
-    have hv0 : SimpleValue ⟨.value, Loc.none, 0, "", "", "E_UNSPECIFIED", 0, none, []⟩ :=
-      ⟨rfl, ⟨rfl, rfl, rfl, rfl, rfl⟩, rfl, rfl, rfl,
-        ident "E_UNSPECIFIED" 'E' "_UNSPECIFIED".toList (by decide) (by decide) (by decide), by decide, rfl⟩
-    have hv1 : SimpleValue ⟨.value, Loc.none, 0, "", "", "E_X", -1, none, []⟩ :=
-      ⟨rfl, ⟨rfl, rfl, rfl, rfl, rfl⟩, rfl, rfl, rfl,
-        ident "E_X" 'E' ['_', 'X'] (by decide) (by decide) (by decide), by decide, rfl⟩
-    have hmsg : SimpleItem (.block "message" 1 Loc.none 0 "M" []
-        [ fld "" "string" "a" 1, fld "repeated " "q.E" "b_c" 2, .block "message" 1 Loc.none 0 "N" [] [],
-          .block "enum" 2 Loc.none 0 "E" [] [val "E_UNSPECIFIED" 0, val "E_X" (-1)] ]) := by
-      simp only [SimpleKids, SimpleItem, SimpleValues, fld, val]
-      exact ⟨⟨rfl, rfl, rfl, rfl, rfl⟩, trivial, hM, Or.inl ⟨trivial, trivial, hfa, hfb,
-        ⟨⟨rfl, rfl, rfl, rfl, rfl⟩, trivial, hN, Or.inl ⟨trivial, trivial, trivial⟩⟩,
-        ⟨⟨rfl, rfl, rfl, rfl, rfl⟩, trivial, hE, Or.inr ⟨trivial, trivial, hv0, hv1, trivial⟩⟩, trivial⟩⟩
-    have hsvc : SimpleService (.block "service" 0 Loc.none 0 "S" [] [ .rpc Loc.none 0 "Get" "M" "stream M.N" [] ]) :=
-      ⟨⟨rfl, rfl, rfl, rfl, rfl⟩, rfl, ident "S" 'S' [] (by decide) (by decide) (by decide), rfl, rfl,
-        ⟨⟨rfl, rfl, rfl, rfl, rfl⟩, rfl, ident "Get" 'G' ['e', 't'] (by decide) (by decide) (by decide),
-          ⟨false, false, "M", [], hM, by simp, by decide, fun _ _ => by decide⟩,
-          ⟨true, false, "M", ["N"], hM, by intro r hr; simp at hr; subst hr; exact hN, by decide, fun h => by simp at h⟩⟩,
-        trivial⟩
-    exact ⟨Or.inr hsvc, Or.inl ⟨hmsg, trivial⟩, trivial⟩
+theorem simpleEx_ok : SimpleFile "gen" simpleEx :=
+  Cover.simpleFileB_sound "gen" simpleEx (by decide)
 
 /-- the example is its own arrangement (the service before the message; fields before the nested message before the enum) -/
 example : simpleEx.arranged = simpleEx := by rfl
 
 end simple_example
+
+/-! ## 8. the printed text is a function of the descriptor (cited by C14)
+
+`Layout.printText gen d` is a Lean function: equal descriptors give equal texts by construction. What
+could make the *real* printer a relation rather than a function is the unstable `sort.Sort` of the
+children of every block. `C05_order_total` says a sorted permutation is unique; lifted to elements:
+whatever sorted permutation of the children a sorting algorithm returns, it is the same list, so the
+emitted text does not depend on the algorithm. -/
+
+open Layout in
+/-- any two permutations of the same children that are sorted by `sourceElements.Less` are equal -/
+theorem C05_sorted_children_unique (es out₁ out₂ : List Item)
+    (h₁ : out₁.Perm es) (h₂ : out₂.Perm es)
+    (s₁ : out₁.Pairwise (fun a b => Order.less a.elem b.elem = true))
+    (s₂ : out₂.Pairwise (fun a b => Order.less a.elem b.elem = true)) : out₁ = out₂ := by
+  apply List.Perm.eq_of_pairwise (le := fun a b => Order.less a.elem b.elem = true) _ s₁ s₂ (h₁.trans h₂.symm)
+  intro a b _ _ hab hba
+  have := Order.less_asymm a.elem b.elem hab
+  rw [this] at hba
+  exact absurd hba (by simp)
+
+open Layout in
+/-- **`print` is a function of the arranged descriptor**: two files with the same arrangement print
+the same text; and the top-level arrangement is the only sorted permutation of the elements, so the
+text written for any sorted permutation of them is the text `printText` gives (the children of a
+block: the same argument with `C05_sorted_children_unique` one level down). -/
+theorem C05_print_function (gen : String) (d₁ d₂ : FileD) (h : d₁.arranged = d₂.arranged) :
+    printText gen d₁ = printText gen d₂ := by
+  unfold printText printFile
+  rw [h]
+
+open Layout in
+theorem C05_print_function_sorted (gen : String) (f : FileD) (out₁ out₂ : List Item)
+    (h₁ : out₁.Perm f.items) (h₂ : out₂.Perm f.items)
+    (s₁ : out₁.Pairwise (fun a b => Order.less a.elem b.elem = true))
+    (s₂ : out₂.Pairwise (fun a b => Order.less a.elem b.elem = true)) :
+    run (fileCmds gen { f with items := out₁ }) false = run (fileCmds gen { f with items := out₂ }) false := by
+  rw [C05_sorted_children_unique f.items out₁ out₂ h₁ h₂ s₁ s₂]
+
+/-- non-vacuity: the example file's top level is such a sorted permutation (service before message) -/
+example : (exFile.arranged.items.map Layout.Item.elem).Pairwise (fun a b => Order.less a b = true) := by
+  decide
 
 end J5V.Props.C05
